@@ -27,8 +27,14 @@ def solve_fixed_grid(
         state0 = solver.init(t=t0, u=u, damp=damp)
         s_new, result = flow.scan(body_fn, init=state0, xs=np.diff(grid))
 
+        # The last step ends exactly at the final grid point. Hand the final state
+        # over like a checkpoint that has been hit exactly (this matters for smoothers,
+        # whose terminal state must not be moved back to the previous grid point).
+        _, interp_res = solver.interpolate_fwd_at_t1(
+            t=grid[-1], interp_from=s_new, interp_to=s_new
+        )
         return solver.userfriendly_output(
-            solution0=state0, solution=result, solution1=s_new
+            solution0=state0, solution=result, solution1=interp_res.step_from
         )
 
     return solve
